@@ -71,7 +71,7 @@ pub struct ArgList<'a> {
 
 impl<'a> Clone for ArgList<'a> {
     fn clone(&self) -> Self {
-//@ ensures r == *self,   // [C01,C07,C08,C12]
+//@ ensures r == *self,   // [C08,~C01,~C07,~C12]
         ArgList { tokens: self.tokens.clone() }
     }
 }
@@ -81,12 +81,12 @@ impl<'a> ArgList<'a> {
 //@ pub closed spec fn tokens(&self) -> Seq<Seq<u8>> { self.tokens.view() }
     /// Create new arg list from given tokens
     pub fn new(tokens: Tokens<'a>) -> Self {
-//@ ensures r.tokens() == tokens.view(),   // [C01,C07,C08,C12]
+//@ ensures r.tokens() == tokens.view(),   // [C08,~C01,~C07,~C12]
         Self { tokens }
     }
 
     pub fn args(&self) -> ArgsIter<'a> {
-//@ ensures r.view() == classify(self.tokens(), false), r.rest_tokens() == self.tokens(), !r.in_cluster(),   // [C08,C01,C07,C12]
+//@ ensures r.view() == classify(self.tokens(), false), r.rest_tokens() == self.tokens(), !r.in_cluster(),   // [C08,~C01,~C07,~C12]
         ArgsIter::new(self.tokens.iter())
     }
 }
@@ -118,7 +118,7 @@ impl<'a> ArgsIter<'a> {
 //@ pub closed spec fn in_cluster(&self) -> bool { self.leftover@.len() > 0 }
 //@ pub closed spec fn values_only_spec(&self) -> bool { self.values_only }
     fn new(tokens: TokensIter<'a>) -> Self {
-//@ ensures r.view() == classify(tokens.view(), false), r.rest_tokens() == tokens.view(), !r.in_cluster(),   // [C01,C07,C08,C12]
+//@ ensures r.view() == classify(tokens.view(), false), r.rest_tokens() == tokens.view(), !r.in_cluster(),   // [C08,~C01,~C07,~C12]
 //@ ---
 //@ proof { reveal_strlit(""); assert(shorts(""@) =~= Seq::<ArgItem>::empty()); }
         Self {
@@ -133,7 +133,7 @@ impl<'a> ArgsIter<'a> {
     /// If iterator was in the middle of iterating of collapsed
     /// short options (like `-vhs`), non iterated options are discarded
     pub fn into_args(self) -> ArgList<'a> {
-//@ ensures r.tokens() == self.rest_tokens(),   // [C01,C07,C08,C12]
+//@ ensures r.tokens() == self.rest_tokens(),   // [C08,~C01,~C07,~C12]
         ArgList::new(self.tokens.into_tokens())
     }
 }
